@@ -67,10 +67,11 @@ func runC14(p *engine.Prog, r *engine.Report) {
 	var rowLoop *loopInfo
 	var rowElem string
 	for _, in := range allInstrs(fnStat) {
-		if u, ok := in.(*ssa.UnOp); ok && u.Op == token.MUL {
-			if ia, ok := u.X.(*ssa.IndexAddr); ok && ia.X == ssa.Value(fnStat.Params[0]) {
-				rowLoop = loopOf(fi, u.Block())
-				rowElem = fi.T(u).S
+		// the element of the rows parameter, copied ("for _, row := range rows") or addressed ("row := &rows[i]")
+		if ia, ok := in.(*ssa.IndexAddr); ok && ia.X == ssa.Value(fnStat.Params[0]) {
+			if lp := loopOf(fi, ia.Block()); lp != nil {
+				rowLoop = lp
+				rowElem = strings.TrimPrefix(fi.T(ia).S, "&")
 			}
 		}
 	}
@@ -116,7 +117,45 @@ func runC14(p *engine.Prog, r *engine.Report) {
 		}
 		// the metric entry is the one of this row's name
 		if c := ctrs[fMTotal]; len(c.st) == 1 {
-			if !strings.Contains(fi.T(c.st[0].Addr).S, resT+"."+fMetrics.Name()+"[") || !strings.Contains(fi.T(c.st[0].Addr).S, rowElem+".Metric") {
+			okEntry := strings.Contains(fi.T(c.st[0].Addr).S, resT+"."+fMetrics.Name()+"[") && strings.Contains(fi.T(c.st[0].Addr).S, rowElem+".Metric")
+			if !okEntry {
+				// the entry may have been fetched (or created and stored) into a variable first
+				var entryOfRow func(v ssa.Value, d int) bool
+				entryOfRow = func(v ssa.Value, d int) bool {
+					if d > 3 {
+						return false
+					}
+					switch x := v.(type) {
+					case *ssa.Phi:
+						for _, e := range x.Edges {
+							if !entryOfRow(e, d+1) {
+								return false
+							}
+						}
+						return len(x.Edges) > 0
+					case *ssa.Lookup:
+						t := fi.T(x).S
+						return strings.Contains(t, resT+"."+fMetrics.Name()+"[") && strings.Contains(t, rowElem+".Metric")
+					case *ssa.Extract:
+						if lk, ok := x.Tuple.(*ssa.Lookup); ok && x.Index == 0 {
+							return entryOfRow(lk, d+1)
+						}
+					case *ssa.Alloc:
+						for _, rr := range *x.Referrers() {
+							if mu, ok := rr.(*ssa.MapUpdate); ok && mu.Value == ssa.Value(x) {
+								if strings.HasSuffix(strings.Split(fi.T(mu.Map).S, "@")[0], resT+"."+fMetrics.Name()) && strings.Contains(fi.T(mu.Key).S, rowElem+".Metric") {
+									return true
+								}
+							}
+						}
+					}
+					return false
+				}
+				if fa, ok := c.st[0].Addr.(*ssa.FieldAddr); ok && entryOfRow(fa.X, 0) {
+					okEntry = true
+				}
+			}
+			if !okEntry {
 				probs = append(probs, "the per-metric total is not the entry of this row's metric name: "+fi.T(c.st[0].Addr).S)
 			}
 		}
